@@ -196,3 +196,19 @@ package patch
 //@   requires e != nil && e.expression != nil && (forall j int :: 0 <= j && j < len(options) ==> options[j] != nil)
 //@   ensures err == nil ==> ctx != nil
 //@   assigns *
+
+// C01: patch.Compile returns an expression or an error, never both and never neither, and a
+// compiled patch expression holds a non-nil, well-formed FHIRPath expression (the precondition
+// of every patch operation above). Its transform wraps each published node in a
+// storeLastExpression, which is never nil.
+//@ func Compile$1(e) (r)
+//@   ensures r != nil
+//@   assigns nothing
+//@ func Compile(path, options) (res, err)
+//@   requires forall j int :: 0 <= j && j < len(options) ==> options[j] != nil
+//@   ensures (res != nil) != (err != nil)
+//@   ensures err == nil ==> res.expression != nil
+// frame: anything on the heap (options are opaque), AND the backing array of the caller's
+// variadic slice: Compile appends its transform option to `options` in place when that slice
+// has spare capacity (declared, not proved absent)
+//@   assigns *, caller-arrays
